@@ -204,7 +204,7 @@ func RunReplay(t *testing.T, entries map[string]func()) {
 			ufs[v.Label+":"+v.Args] = v.Hex
 		} else if v.Kind == "clock" {
 			clocks = append(clocks, v)
-		} else if v.Kind == "sched" {
+		} else if v.Kind == "sched" || (v.Kind == "choose" && v.Label == "cache") {
 			// the engine's model of time.Now(): the native run reads the real clock
 		} else {
 			vals = append(vals, v)
